@@ -154,7 +154,7 @@ Definition rn_from (c : Cfg) (m : mode) (ts : tstate) (r2 : reader) (ckpt : bool
       if ts_poisoned ts then (with_reader ts r3, RErr EOther) else
       let start := if r_tail_bid r3 =? b_id w then r_tail_off r3 else 0 in
       let '(r4, ts1) :=
-        if ckpt && (start =? 0) then
+        if ckpt && (start =? 0) && (0 <? b_used w) then
           let '(r', p) := should_persist m r3 true in
           (r', if p then persist ts true (b_id w) start else ts)
         else (r3, ts) in
